@@ -91,7 +91,7 @@ mutual
       extBody (defBody sk n mn c b) = defBody sk n mn c (extBody b) := by
     cases b with
     | leaf => simp [defBody, extBody]
-    | element e => simp [defBody, extBody]
+    | element e => simp only [defBody, extBody]; rw [extDesc_defDesc false e]
     | members ms =>
       simp only [defBody, extBody]
       rw [extItems_defItems c ms, defItems_addMarker]
